@@ -14,6 +14,8 @@ pub mod c10;
 pub mod c11;
 pub mod c12;
 pub mod c13;
+pub mod c14;
+pub mod c15;
 pub mod c17;
 pub mod c18;
 pub mod c19;
@@ -35,6 +37,8 @@ pub fn dispatch(id: &str, opts: &Opts) -> Option<i32> {
         "C11" => run_property(&c11::C11, opts),
         "C12" => run_property(&c12::C12, opts),
         "C13" => run_property(&c13::C13, opts),
+        "C14" => run_property(&c14::C14, opts),
+        "C15" => run_property(&c15::C15, opts),
         "C17" => run_property(&c17::C17, opts),
         "C18" => run_property(&c18::C18, opts),
         "C19" => run_property(&c19::C19, opts),
